@@ -35,46 +35,44 @@ def _order(o: Any) -> Any:
     return tuple(o) if isinstance(o, list) else o
 
 
-def build(sp: Dict[str, Any]) -> nx.Graph:
-    """Materialise an item spec as a fresh nx.Graph (new object every call)."""
-    import random
-    it = items()[sp["base"] % len(items())]
-    nodes = [list(n) for n in it["nodes"]]
-    edges = [[e[0], e[1], _order(e[2])] for e in it["edges"]]
-    ed = sp.get("edit")
-    if ed:
-        if ed[0] == "charge":
-            k = ed[1] % len(nodes)
-            nodes[k][2] = nodes[k][2] + 1
-        elif ed[0] == "order" and edges:
-            k = ed[1] % len(edges)
-            o = edges[k][2]
-            if isinstance(o, tuple):
-                edges[k][2] = (o[0], (o[1] or 0) + 1)
-            else:
-                edges[k][2] = (o or 0) + 1
-        elif ed[0] == "element":
-            k = ed[1] % len(nodes)
-            nodes[k][1] = "Si" if nodes[k][1] != "Si" else "Ge"
-    rs = sp.get("relabel")
-    if rs is not None:
-        r = random.Random(rs)
-        ids = [n[0] for n in nodes]
-        new = list(range(1, len(ids) + 1))
-        r.shuffle(new)
-        off = r.choice([0, 10, 100])
-        m = {i: j + off for i, j in zip(ids, new)}
-        nodes = [[m[n[0]], n[1], n[2]] for n in nodes]
-        edges = [[m[e[0]], m[e[1]], e[2]] if r.random() < 0.5 else [m[e[1]], m[e[0]], e[2]] for e in edges]
-        r.shuffle(nodes)
-        r.shuffle(edges)
+def _base_graph(b: int) -> nx.Graph:
+    it = items()[b % len(items())]
     g = nx.Graph()
-    for n, el, ch in nodes:
+    for n, el, ch in it["nodes"]:
         g.add_node(n, element=el, charge=ch, atom_map=n)
-    for u, v, o in edges:
+    for u, v, o in it["edges"]:
+        o = _order(o)
         so = (o[0] - o[1]) if isinstance(o, tuple) else 0
         g.add_edge(u, v, order=o, standard_order=so)
     return g
+
+
+def build(sp: Dict[str, Any]) -> nx.Graph:
+    """Materialise an item spec as a fresh nx.Graph (new object every call):
+    corpus graph -> optional one-edit -> optional relabelling with shuffled insertion order."""
+    import random
+    g = _base_graph(sp["base"])
+    if sp.get("edit"):
+        apply_edit_inplace(g, sp["edit"])
+    rs = sp.get("relabel")
+    if rs is None:
+        return g
+    r = random.Random(rs)
+    ids = sorted(g.nodes())
+    new = list(range(1, len(ids) + 1))
+    r.shuffle(new)
+    off = r.choice([0, 10, 100])
+    m = {i: j + off for i, j in zip(ids, new)}
+    nodes = [(m[n], dict(d, atom_map=m[n])) for n, d in g.nodes(data=True)]
+    edges = [((m[u], m[v]) if r.random() < 0.5 else (m[v], m[u])) + (dict(d),) for u, v, d in g.edges(data=True)]
+    r.shuffle(nodes)
+    r.shuffle(edges)
+    h = nx.Graph()
+    for n, d in nodes:
+        h.add_node(n, **d)
+    for u, v, d in edges:
+        h.add_edge(u, v, **d)
+    return h
 
 
 def content_key(sp: Dict[str, Any]) -> str:
@@ -126,3 +124,24 @@ def same_partition(a: List[Any], b: List[Any]) -> bool:
         if fa.setdefault(x, y) != y or fb.setdefault(y, x) != x:
             return False
     return len(a) == len(b)
+
+
+def apply_edit_inplace(g: nx.Graph, ed: List[Any]) -> None:
+    """Apply the same edit build() applies, to a graph whose node ids are the corpus ids (un-relabelled)."""
+    nodes = sorted(g.nodes())
+    edges = sorted((min(u, v), max(u, v)) for u, v in g.edges())
+    if ed[0] == "charge":
+        n = nodes[ed[1] % len(nodes)]
+        g.nodes[n]["charge"] = g.nodes[n].get("charge", 0) + 1
+    elif ed[0] == "order" and edges:
+        u, v = edges[ed[1] % len(edges)]
+        o = g[u][v].get("order")
+        if isinstance(o, tuple):
+            o = (o[0], (o[1] or 0) + 1)
+            g[u][v]["standard_order"] = o[0] - o[1]
+        else:
+            o = (o or 0) + 1
+        g[u][v]["order"] = o
+    elif ed[0] == "element":
+        n = nodes[ed[1] % len(nodes)]
+        g.nodes[n]["element"] = "Si" if g.nodes[n].get("element") != "Si" else "Ge"
